@@ -105,7 +105,8 @@ def targets(ctx):
                             if q.name != first or q.value != v or q != v or type(q) is not E:
                                 bad = f"{q.name!r}/{q.value!r}"
                         except (AttributeError, TypeError, ValueError) as e:
-                            bad = f"{q!r:.80}: not a member with name / value ({type(e).__name__}: {e})"
+                            # (repr() of a member reads its name: not usable here)
+                            bad = f"{type(q).__name__}({int(q) if isinstance(q, int) else '?'}): not a member with name / value ({type(e).__name__}: {e})"
                     if bad:
                         out.append(("pickle_member", f"protocol {proto}: pickled E({v}) -> {bad}"))
                         break
